@@ -357,3 +357,54 @@ def check_indels(facts, chk, rule, tier):
     else:
         chk.ok(rule, key, 'generic_modes::skalo', 'ska lo interpreted end to end: every indel record matches the genomes it genotypes (0: before+REF+after only, 1: before+ALT+after only), '
                'no planted indel reported twice, no other record, %d of %d planted indels reported (recall floor 75%% on this family; the 90%% clause is not decided); %d runs (k=%d, insertions / deletions of 1-3 bases, 3-4 samples, all carrier counts)' % (reported_total, planted_total, n, k), evals=n)
+
+
+def check_wide(facts, chk, rule, tier, kind='snp'):
+    """260 samples (thorough tier): a SNP / an insertion carried by samples 3, 17, 257 and 258.  Sample indices above 255 must stay
+    distinct from indices 1 and 2 (a sample set or index kept in a u8 wraps there); no bounded family of a few samples reaches this."""
+    key = rule + (':snps-wide' if kind == 'snp' else ':indels-wide')
+    if tier != 'thorough':
+        return
+    k = 9
+    rng = random.Random(77)
+    L, site, ns = 44, 20, 260
+    car = {3, 17, 257, 258}
+    if kind == 'snp':
+        def variants(s):
+            return [s[:site] + b + s[site + 1:] for b in 'ACGT' if b != s[site]]
+        anc = ancestor(L, k, rng, variants)
+        alt = [b for b in 'ACGT' if b != anc[site]][0]
+        samples = [('s%03d' % i, [anc[:site] + (alt if i in car else anc[site]) + anc[site + 1:]]) for i in range(ns)]
+    else:
+        ins = 'GA'
+
+        def variants(s):
+            return [s[:site] + ins + s[site:]]
+        for _ in range(200):
+            anc = ancestor(L, k, rng, variants)
+            if anc[site:site + 2] != ins and anc[site - 2:site] != ins:
+                break
+        samples = [('s%03d' % i, [anc[:site] + (ins if i in car else '') + anc[site:]]) for i in range(ns)]
+    try:
+        out = run_lo(facts, samples, k, 1)
+    except Panic as p:
+        chk.violation(rule, key, where='generic_modes::skalo', evals=1, detail='ska lo aborts on 260 samples: %s' % p.kind)
+        return
+    if kind == 'snp':
+        names, seqs = parse_fasta(out.get('out_snps.fas', ''))
+        cols = [''.join(q[i] for q in seqs) for i in range(len(seqs[0]))] if seqs and seqs[0] else []
+        want = ''.join(alt if i in car else anc[site] for i in range(ns))
+        comp = ''.join(COMP.get(x, x) for x in want)
+        if len(names) != ns or len(cols) != 1 or cols[0] not in (want, comp):
+            wrong = [i for i, (a, b) in enumerate(zip(cols[0] if cols else '', want)) if a != b][:8] if cols and cols[0] not in (want, comp) else []
+            chk.violation(rule, key, where='generic_modes::skalo', evals=1, detail='%d sequences, %d columns; samples with the wrong base: %s (carriers are %s)' % (len(names), len(cols), wrong, sorted(car)))
+        else:
+            chk.ok(rule, key, 'generic_modes::skalo', 'one SNP column over 260 samples with the alternative allele in exactly samples %s' % sorted(car), evals=1)
+    else:
+        names, recs = parse_vcf(out.get('out_indels.vcf', ''))
+        good = [r for r in recs if {i for i, g in enumerate(r['gt']) if g.split('/')[0] == '1' or g == '1'} in (car, set(range(ns)) - car)]
+        if len(recs) != 1 or not good:
+            got = [sorted(i for i, g in enumerate(r['gt']) if g not in ('0', '0/0', '.'))[:8] for r in recs][:2]
+            chk.violation(rule, key, where='generic_modes::skalo', evals=1, detail='%d indel records; carriers genotyped %s, planted carriers %s' % (len(recs), got, sorted(car)))
+        else:
+            chk.ok(rule, key, 'generic_modes::skalo', 'one indel record over 260 samples genotyping exactly samples %s as carriers' % sorted(car), evals=1)
